@@ -17,13 +17,48 @@ type c11pMenuEntry struct {
 	proto   bool // only meaningful for the Protocol driver (signatures, lateness)
 }
 
+// c11pMenu is the Byzantine menu. Besides the behaviours of DESIGN §5 it holds, for every
+// validation branch of ProcessDeals / ProcessResponses / ProcessJustifications / set.Push /
+// VerifyPacketSignature, an entry that only this branch stops (branch -> entry):
+//
+//	ProcessDeals   nil bundle                    -> nil entries put into the lists by the direct engine
+//	               dealer index unknown          -> deal-ghost-dealer
+//	               session id                    -> deal-sid, deal-equivocate-sid
+//	               public polynomial nil/length  -> deal-publen-zero/-short/-long
+//	               second bundle of a dealer     -> deal-dup, deal-equivocate*
+//	               deal for unknown holder index -> deal-extra-far/{first,mid,last}, deal-relabel-far/{keep,first,last}
+//	               undecryptable / not a scalar  -> deal-garbage, deal-misdirected, deal-badplaintext
+//	               share off the polynomial      -> deal-wrongshare
+//	               resharing constant term       -> reshare-wrongconst
+//	               no deal for this node         -> absent, deal-missing, deal-relabel-dup, deal-relabel-far
+//	ProcessResponses holder index unknown        -> resp-ghost-holder
+//	               session id                    -> resp-sid, resp-equivocate-sid
+//	               dealer index unknown          -> resp-baddealer/{first,mid,last}
+//	               success outside fast-sync     -> resp-success-nonfast, resp-dupdealer
+//	               silent holder (fast-sync)     -> resp-absent, absent
+//	               t complaints                  -> deal-*/all, coalitions of false complaints
+//	ProcessJustifications second bundle          -> dupjust, equivocate-share, equivocate-sid
+//	               dealer index unknown          -> just-ghost-dealer
+//	               session id                    -> sidjust
+//	               holder index unknown          -> badidxjust/{first,last}
+//	               share off the polynomial      -> badjust, dupidxjust/{cw,wc}
+//	               complaint left unanswered     -> nojust, partialjust, otherholderjust
+//	set.Push       identical packet again        -> deal-dup, resp-dup, dupjust and the scheduler's duplicated deliveries
+//	               conflicting packet            -> *equivocate* pairs differing in exactly one field
+//	signature      wrong / foreign key           -> deal-badsig, resp-badsig, deal-/resp-/just-impersonate
 func c11pMenu() []c11pMenuEntry {
 	var m []c11pMenuEntry
 	d := func(kind, target, just string) {
 		m = append(m, c11pMenuEntry{f: c11pFault{kind: kind, target: target, just: just}, dealer: true})
 	}
+	dp := func(kind, pos, target, just string) {
+		m = append(m, c11pMenuEntry{f: c11pFault{kind: kind, pos: pos, target: target, just: just}, dealer: true})
+	}
 	h := func(kind, target string) {
 		m = append(m, c11pMenuEntry{f: c11pFault{kind: kind, target: target}, holder: true})
+	}
+	hp := func(kind, pos, target string) {
+		m = append(m, c11pMenuEntry{f: c11pFault{kind: kind, pos: pos, target: target}, holder: true})
 	}
 	m = append(m, c11pMenuEntry{f: c11pFault{kind: "absent"}})
 	// invalid encrypted shares to chosen honest parties, with every justification behaviour
@@ -34,9 +69,14 @@ func c11pMenu() []c11pMenuEntry {
 	d("deal-wrongshare", "one", "just")
 	d("deal-wrongshare", "one", "badjust")
 	d("deal-wrongshare", "one", "dupjust")
-	d("deal-wrongshare", "one", "equivjust")
+	d("deal-wrongshare", "one", "equivocate-share")
+	d("deal-wrongshare", "one", "equivocate-sid")
 	d("deal-wrongshare", "one", "sidjust")
-	d("deal-wrongshare", "one", "badidxjust")
+	dp("deal-wrongshare", "first", "one", "badidxjust")
+	dp("deal-wrongshare", "last", "one", "badidxjust")
+	dp("deal-wrongshare", "cw", "one", "dupidxjust")
+	dp("deal-wrongshare", "wc", "one", "dupidxjust")
+	d("deal-wrongshare", "one", "otherholderjust")
 	d("deal-wrongshare", "two", "partialjust")
 	d("deal-wrongshare", "two", "just")
 	d("deal-wrongshare", "all", "just")
@@ -44,28 +84,57 @@ func c11pMenu() []c11pMenuEntry {
 	d("deal-misdirected", "one", "just")
 	d("deal-missing", "one", "nojust")
 	d("deal-missing", "one", "just")
+	d("deal-badplaintext", "one", "nojust")
+	d("deal-badplaintext", "one", "just")
+	// edits of the inner structure of a deal bundle: relabelled, bogus, reordered entries
+	dp("deal-relabel-far", "keep", "one", "nojust")
+	dp("deal-relabel-far", "first", "one", "nojust")
+	dp("deal-relabel-far", "last", "one", "nojust")
+	dp("deal-relabel-dup", "keep", "one", "nojust")
+	dp("deal-relabel-dup", "first", "one", "just")
+	dp("deal-relabel-dup", "last", "one", "nojust")
+	dp("deal-extra-far", "first", "", "")
+	dp("deal-extra-far", "mid", "", "")
+	dp("deal-extra-far", "last", "", "")
+	dp("deal-order", "reversed", "", "")
+	dp("deal-order", "rotated", "", "")
 	// structurally invalid / duplicated / conflicting bundles
-	d("deal-badindex", "", "")
 	d("deal-publen-short", "", "")
 	d("deal-publen-long", "", "")
+	d("deal-publen-zero", "", "")
 	d("deal-sid", "", "")
+	d("deal-ghost-dealer", "", "")
 	d("deal-dup", "", "")
 	d("deal-equivocate", "", "")
+	d("deal-equivocate-sid", "", "")
+	d("deal-equivocate-cipher", "", "")
+	d("deal-equivocate-public", "", "")
+	d("just-ghost-dealer", "", "")
 	m = append(m, c11pMenuEntry{f: c11pFault{kind: "reshare-wrongconst", just: "nojust"}, dealer: true, reshare: true})
 	m = append(m, c11pMenuEntry{f: c11pFault{kind: "reshare-wrongconst", just: "just"}, dealer: true, reshare: true})
 	m = append(m, c11pMenuEntry{f: c11pFault{kind: "deal-badsig"}, dealer: true, proto: true})
 	m = append(m, c11pMenuEntry{f: c11pFault{kind: "deal-late"}, dealer: true, proto: true})
+	m = append(m, c11pMenuEntry{f: c11pFault{kind: "deal-impersonate"}, dealer: true, proto: true})
 	// share-holder misbehaviour in the response phase
 	h("resp-false-complaint", "one")
 	h("resp-false-complaint", "all")
-	h("resp-baddealer", "")
+	hp("resp-baddealer", "first", "one")
+	hp("resp-baddealer", "mid", "one")
+	hp("resp-baddealer", "last", "one")
+	hp("resp-dupdealer", "cs", "one")
+	hp("resp-dupdealer", "sc", "one")
+	hp("resp-order", "reversed", "two")
 	m = append(m, c11pMenuEntry{f: c11pFault{kind: "resp-success-nonfast"}, holder: true, nonfast: true})
 	h("resp-sid", "")
 	h("resp-absent", "")
+	h("resp-ghost-holder", "")
 	h("resp-dup", "one")
 	h("resp-equivocate", "one")
+	h("resp-equivocate-sid", "one")
 	m = append(m, c11pMenuEntry{f: c11pFault{kind: "resp-badsig"}, holder: true, proto: true})
 	m = append(m, c11pMenuEntry{f: c11pFault{kind: "resp-late", target: "one"}, holder: true, proto: true})
+	m = append(m, c11pMenuEntry{f: c11pFault{kind: "resp-impersonate"}, holder: true, proto: true})
+	m = append(m, c11pMenuEntry{f: c11pFault{kind: "just-impersonate", target: "one"}, holder: true, proto: true})
 	return m
 }
 
@@ -296,11 +365,11 @@ func c11pScenarios(r *mon.R, mode string) []*c11pScn {
 	var kHonest, kExh, sampFresh, sampReshare, sampPairs, maxN int
 	halfFast := false // quick proto: each (party, entry) of a resharing shape runs with one of the two sync modes
 	if mode == "direct" {
-		kHonest, kExh = r.N(2, 10), r.N(1, 8)
+		kHonest, kExh = r.N(2, 10), r.N(1, 4)
 		sampFresh, sampReshare, sampPairs = r.N(24, 400), r.N(400, 10000), r.N(6, 60)
 		maxN = r.N(6, 9)
 	} else {
-		kHonest, kExh = r.N(1, 3), r.N(1, 2)
+		kHonest, kExh = r.N(1, 3), r.N(1, 1)
 		sampFresh, sampReshare, sampPairs = r.N(8, 50), r.N(100, 1000), r.N(3, 20)
 		maxN = r.N(6, 9)
 		halfFast = !r.Thorough()
